@@ -252,6 +252,30 @@ void runC19(const Scenario& sc, vf::Result& res) {
             int np = 0;
             for (auto& pi : BookBuildTest::node(*book, p.bookHash())->getParents()) { (void)pi; np++; }
             if (np > 1) res.counters["probe_transposition_extra_parent"]++;
+        } else if (t[0] == "line") {
+            // a line of explicit moves from the root: every position that is not yet in the book is added. Lines over a
+            // small commuting move vocabulary transpose into each other with different lengths, in any order of arrival.
+            Position p = start;
+            UndoInfo ui;
+            for (size_t mi = 1; mi < t.size(); mi++) {
+                std::vector<Move> lm;
+                uci::legalMoves(p, lm);
+                Move m;
+                for (const Move& x : lm) if (TextIO::moveToUCIString(x) == t[mi]) m = x;
+                if (m.isEmpty()) break;
+                Position c2 = p;
+                c2.makeMove(m, ui);
+                if (!ref.count(c2.bookHash())) {
+                    std::vector<U64> ts;
+                    BookBuildTest::addPos(*book, p, m, ts);
+                    ref[c2.bookHash()].pos = c2;
+                    res.counters["op_line_add"]++;
+                    int np = 0;
+                    for (auto& pi : BookBuildTest::node(*book, c2.bookHash())->getParents()) { (void)pi; np++; }
+                    if (np > 1) res.counters["probe_transposition_extra_parent"]++;
+                }
+                p = c2;
+            }
         } else if (t[0] == "result") {
             U64 h = pickNode(a);
             RefNode& rn = ref[h];
@@ -354,8 +378,30 @@ void genC19(uint64_t seed, int tier, Scenario& sc) {
     sc.seed = seed;
     if (r.chance(0.3)) { sc.set("k_depth", r.range(1, 300)); sc.set("k_own", r.range(1, 400)); sc.set("k_other", r.range(1, 100)); }
     int n = (int)r.logRange(3, tier > 0 ? 200 : 40);
+    // tempo-losing lines: single vs double pawn steps and knights going out and back, so that the same position is
+    // reached by lines of different length; a pawn move resets the half-move clock (part of the book hash)
+    const bool tempoLines = r.chance(0.5);
+    auto genLine = [&r]() {
+        static const char* vocab[] = {"e2e3", "e3e4", "e2e4", "d2d3", "d3d4", "d2d4", "g1f3", "f3g1", "b1c3", "c3b1",
+                                      "e7e6", "e6e5", "e7e5", "d7d6", "d6d5", "d7d5", "g8f6", "f6g8", "b8c6", "c6b8"};
+        Position p = TextIO::readFEN(TextIO::startPosFEN);
+        UndoInfo ui;
+        std::string line = "line";
+        int len = (int)r.range(1, 10);
+        for (int i = 0; i < len; i++) {
+            std::vector<Move> lm, ok;
+            uci::legalMoves(p, lm);
+            for (const Move& m : lm) { std::string u = TextIO::moveToUCIString(m); for (const char* v : vocab) if (u == v) ok.push_back(m); }
+            if (ok.empty()) break;
+            Move m = ok[r.below(ok.size())];
+            line += " " + TextIO::moveToUCIString(m);
+            p.makeMove(m, ui);
+        }
+        return line;
+    };
     for (int i = 0; i < n; i++) {
         int k = (int)r.below(100);
+        if (tempoLines && r.chance(0.4)) { sc.ops.push_back(genLine()); continue; }
         // low node indices are preferred so that lines get deep and transpositions appear
         uint64_t nodeSel = r.chance(0.5) ? r.next() : r.below(6);
         if (k < 45) sc.ops.push_back("add " + std::to_string(nodeSel) + " " + std::to_string(r.chance(0.6) ? r.below(4) : r.next() >> 1));
